@@ -15,8 +15,8 @@ func init() {
 		Title: "Announce hands each node back its own token, and always finishes",
 		Decided: "C16.1 token and destination travel together: in Announce.announcePeer the address and the token given to Server.announcePeer come from the same closest-set element (peer.Addr, peer.Data), which is the Range callback's own argument; in TraversalQueryResult the closest data is *r.Token under r.Token ≠ nil only, and the responder is {addr, r.ID} of that same reply; " +
 			"C16.2 the token assertion is licensed by the DataFilter installed at the same traversal.Start (true only for strings); " +
-			"C16.3 order and completion: the completion goroutine receives from Stopped() before announceClosest(), announces only when announce options were given, and sets peerAnnounced and closes Peers on every path; Peers is closed nowhere else; the goroutine is started on every non-error path; announceClosest waits for every announce it started; " +
-			"C16.4 delivery is not lossy: every send on Announce.Peers sits in a blocking select whose only other case is a receive from the traversal's Stopped(); the delivered value carries the responder {addr, r.ID}, r.Values and *r of the one reply; " +
+			"C16.3 order and completion: the completion goroutine receives from Stopped() before announceClosest(), announces only when announce options were given, and sets peerAnnounced and closes Peers on every path; Peers is closed nowhere else; the goroutine is started on every non-error path; announceClosest waits for every announce it started (Add before go, never inside the started goroutine) and reads Closest() only after Stopped(); " +
+			"C16.4 delivery is not lossy and cannot strand the announce: every send on Announce.Peers sits in a blocking select whose only other case is the announce's own close event (a SetOnce every setter of which also stops the traversal) - not the query context (StopTraversing would drop received responses) and not Stopped() (which waits for the delivering query itself); the delivered value carries the responder {addr, r.ID}, r.Values and *r of the one reply; " +
 			"C16.5 argument correspondence: Server.announcePeer fills MsgArgs.ImpliedPort/InfoHash/Port/Token from the like-named parameters and queries the node it was given; Announce.announcePeer passes its own info-hash and the configured Port / ImpliedPort.",
 		NotDecided: "which nodes end up in the closest set (C02), exactly-once delivery counts, behaviour of the remote nodes.",
 		Assume:     []string{"k-nearest-nodes Range yields each stored element with its own key and data (C02.4 checks Push stores them together)"},
